@@ -351,15 +351,15 @@ theorem optSum_selected [Add K] [Zero K] {n : Nat} (D : Nat → Nat → Option K
   rw [this]
   exact optSum_cost _ 0
 
-variable [Field K] [LinearOrder K] [IsStrictOrderedRing K] {sqrt : K → K} {c : K}
+variable [Field K] [LinearOrder K] [IsStrictOrderedRing K] {sqrt : K → K}
 
+omit [LinearOrder K] [IsStrictOrderedRing K] in
 /-- **C02's matrix satisfies C06's `IsAug`** for the Euclidean cost rule of `Model/Rows.lean`
-    (the rotated second coordinate `−c·b + c·d` is `(d−b)/√2` under `SqrtSpec`, `CosSpec`) -/
-theorem wsAug_isAug (hs : SqrtSpec sqrt) (hc : CosSpec c) (S T : List (K × K)) :
+    (the diagonal entries are `(d−b)/√2` as written, since the /repo fix of the diagonal cost) -/
+theorem wsAug_isAug (S T : List (K × K)) :
     IsAug S.length T.length (cOf (Rows.euclidM sqrt) S T) (uOf (Rows.diagL2M sqrt) S)
-      (uOf (Rows.diagL2M sqrt) T) (augEntry sqrt c c S T) := by
-  have hrot : ∀ p : K × K, (rot c c p).2 = Rows.diagL2M sqrt p := fun p => by
-    rw [rot_snd, show Rows.diagL2M sqrt p = diagL2 sqrt p from rfl, ← hc.mul_eq_diagL2 hs]; ring
+      (uOf (Rows.diagL2M sqrt) T) (augEntry sqrt S T) := by
+  have hrot : ∀ p : K × K, diagc sqrt p = Rows.diagL2M sqrt p := fun _ => rfl
   refine ⟨fun i j => ?_, fun i i' => ?_, fun j j' => ?_, fun j i => ?_⟩
   · simp only [augEntry, i.2, j.2, dite_true, cOf]
     rfl
@@ -382,31 +382,31 @@ theorem wsAug_isAug (hs : SqrtSpec sqrt) (hc : CosSpec c) (S T : List (K × K)) 
 /-- **what a contract-honouring solver returns on the model's matrix**: `zip(arange n, σ)` for a
     permutation `σ` all of whose selected entries are finite, of minimum cost (this is the first half
     of the proof of `WsLemmas.model_value`, with the permutation kept) -/
-theorem lsa_selects (hs : SqrtSpec sqrt) (hc : CosSpec c) (lsa : Mat K → List (Nat × Nat))
+theorem lsa_selects (hs : SqrtSpec sqrt) (lsa : Mat K → List (Nat × Nat))
     (hl : LsaContract lsa) (S T : List (K × K)) :
     ∃ σ : Equiv.Perm (Fin (S.length + T.length)),
-      lsa (augMatrix sqrt c c S T) = List.ofFn (fun i => (i.val, (σ i).val)) ∧
-      (∀ i, augEntry sqrt c c S T i.val (σ i).val ≠ none) ∧
-      (lsa (augMatrix sqrt c c S T)).mapM (fun p => lookup (augMatrix sqrt c c S T) p.1 p.2)
-        = some (List.ofFn fun i => augEntry sqrt c c S T i.val (σ i).val) := by
+      lsa (augMatrix sqrt S T) = List.ofFn (fun i => (i.val, (σ i).val)) ∧
+      (∀ i, augEntry sqrt S T i.val (σ i).val ≠ none) ∧
+      (lsa (augMatrix sqrt S T)).mapM (fun p => lookup (augMatrix sqrt S T) p.1 p.2)
+        = some (List.ofFn fun i => augEntry sqrt S T i.val (σ i).val) := by
   classical
   have hcost0 := sum_aug_toEquiv (pairCost sqrt S T) (diagCost sqrt S) (diagCost sqrt T)
     (PM.empty : PM (Fin S.length) (Fin T.length))
-  have hsum0 := sum_Dfn_perm S T hs hc (permOf S T (toEquiv PM.empty))
+  have hsum0 := sum_Dfn_perm S T hs (permOf S T (toEquiv PM.empty))
   rw [equivOf_permOf, hcost0] at hsum0
-  have hfeas : ∃ σ : Equiv.Perm (Fin (S.length + T.length)), ∀ i, Dfn sqrt c S T i (σ i) ≠ none := by
+  have hfeas : ∃ σ : Equiv.Perm (Fin (S.length + T.length)), ∀ i, Dfn sqrt S T i (σ i) ≠ none := by
     refine ⟨permOf S T (toEquiv PM.empty), fun i hi => ?_⟩
-    have : ∑ i, toTop (Dfn sqrt c S T i (permOf S T (toEquiv PM.empty) i)) = ⊤ :=
+    have : ∑ i, toTop (Dfn sqrt S T i (permOf S T (toEquiv PM.empty) i)) = ⊤ :=
       WithTop.sum_eq_top.mpr ⟨i, Finset.mem_univ _, by rw [hi]; rfl⟩
     rw [hsum0] at this
     exact WithTop.coe_ne_top this
-  obtain ⟨σ, hσ, hmin⟩ := hl _ (Dfn sqrt c S T) hfeas
+  obtain ⟨σ, hσ, hmin⟩ := hl _ (Dfn sqrt S T) hfeas
   have hle0 := hmin (permOf S T (toEquiv PM.empty))
   rw [hsum0] at hle0
-  have hne : ∑ i, toTop (Dfn sqrt c S T i (σ i)) ≠ ⊤ := ne_top_of_le_ne_top WithTop.coe_ne_top hle0
+  have hne : ∑ i, toTop (Dfn sqrt S T i (σ i)) ≠ ⊤ := ne_top_of_le_ne_top WithTop.coe_ne_top hle0
   refine ⟨σ, by rw [augMatrix_eq, hσ], fun i hi => ?_, ?_⟩
   · exact hne (WithTop.sum_eq_top.mpr ⟨i, Finset.mem_univ _, by
-      show toTop (Dfn sqrt c S T i (σ i)) = ⊤
+      show toTop (Dfn sqrt S T i (σ i)) = ⊤
       unfold Dfn; rw [hi]; rfl⟩)
   · rw [augMatrix_eq, hσ]; exact selected_ofFn _ _
 
